@@ -215,14 +215,14 @@ func TestC04Concurrent(t *testing.T) {
 					cmu.Lock()
 					cancelled[id] = true
 					cmu.Unlock()
-					w.PublishID(g, 0, dead, id)
+					w.PublishID(g, 0, &conc.NoisyCtx{Context: dead, W: w, EID: id}, id)
 				default:
 					id := w.NextEID()
 					for id%2 == 1 && g%4 != 2 {
 						id = w.NextEID() // even: eligible for every handler
 					}
 					if g%2 == 0 {
-						w.PublishID(g, 0, context.Background(), id)
+						w.PublishID(g, 0, &conc.NoisyCtx{Context: context.Background(), W: w, EID: id}, id)
 					} else {
 						w.PublishID(g, 0, nil, id)
 					}
